@@ -9,6 +9,8 @@ with the Lean model (translated from the source on every run); the oracle states
 The whole run is also compared with the COMPOSED model `App.runApp` (lean/Clikit/Model/App.lean, entry
 `c09.app_run`), which gets the command tree from the real application: status, the command and args selected,
 which handler ran with which args, help page (target) / version line / error, I/O configuration.
+A tenth of the cases put `--` at the very front of the line (nothing before the separator, all switches behind it); a
+quarter of the lines are handed over as one string (StringArgs) instead of an argv list.
 """
 import re
 from harness import app_common as ac
@@ -25,7 +27,9 @@ REQUIRED_THEOREMS = ["Clikit.Props.C09." + n for n in (
     "app_io_is_switches", "app_help_switch", "app_version_switch", "app_help_command",
     "app_switches_after_dashes_inert",
     # lenient commands: a surplus argument is skipped with the parser state unchanged (switches behind it act as without it)
-    "parseArgument_surplus", "step_surplus", "lenient_surplus_skipped", "lenient_surplus_run_skipped")]
+    "parseArgument_surplus", "step_surplus", "lenient_surplus_skipped", "lenient_surplus_run_skipped",
+    # `--` as the very first token of the line
+    "io_dashes_first")]
 TECHNIQUE = ("Lean 4 theorems about the switch decisions translated from DefaultApplicationConfig.create_io / "
              "resolve_help_command / print_version on every run (py-AST -> Lean), composed with the C08/C10/C04 results + "
              "differential runs of the real default application with switches inserted at every admissible position")
@@ -33,7 +37,7 @@ LEVEL_TEXT = ("The decisions of create_io (ANSI mode, verbosity, quiet, interact
               "listener are regenerated from the source into Lean on every run; proved for ALL token lists: the I/O "
               "configuration depends only on which tokens occur before `--` (permutation invariance), tokens after `--` "
               "have no effect (io_after_dashes for a prefix without `--`; io_only_option_tokens / io_tail_irrelevant without "
-              "any hypothesis, for every token list), quiet/no-interaction/help iff their tokens are among the option tokens, the verbosity and "
+              "any hypothesis, for every token list; io_dashes_first: a line starting with `--` is configured like the empty line), quiet/no-interaction/help iff their tokens are among the option tokens, the verbosity and "
               "ANSI precedence rules, quiet drops every write incl. the error report (via C10), the version listener ends "
               "the run with status 0 without invoking the handler (via C04). END TO END: App.runApp (Model/App.lean) composes "
               "create_io, the PRE_RESOLVE help listener (lenient parse of the help command), DefaultResolver + the args parser, "
@@ -67,7 +71,12 @@ RULE = ("generated trees on DefaultApplicationConfig x 1 valid line x switch mul
         "optionally raises; a quarter of the lines are for a command configured with enable_lenient_args_parsing(): every "
         "argument has a value and 1-3 SURPLUS arguments follow (legal there; further values when the last argument is "
         "multi-valued), with the switches half of the time behind the first surplus argument (between them / at the end of "
-        "the line); non-trivial = at least one switch before `--`; distinct = (tree, tokens)")
+        "the line); a tenth of the cases are rewritten to a line whose very FIRST token is `--` (zero tokens before the "
+        "separator: the switches of the case, sometimes one more and one or two words of the valid line, shuffled, all "
+        "behind it - arguments of the application's default command) and must show none of the effects; a quarter of the "
+        "lines whose tokens survive the string tokenizer (half of the `--`-first ones) are handed over as ONE STRING "
+        "(StringArgs) instead of an argv list (ArgvArgs); non-trivial = at least one switch before `--`; "
+        "distinct = (tree, tokens)")
 TRUSTED_BASE = [
     "Lean 4.33 kernel; axioms within propext, Classical.choice, Quot.sound (audited per theorem on every run)",
     "tools/genparts/c09.py: translation of the decision structure of create_io / resolve_help_command / print_version",
@@ -81,6 +90,9 @@ TRUSTED_BASE = [
 ASSUMPTIONS = [
     "a valid line for a command with lenient args parsing may carry surplus arguments (they are skipped): the switches "
     "behind them must act as anywhere else; surplus arguments are words that name no command of the generated trees",
+    "`--` may be the very first token of a line (`app -- -q`: the ordinary way to pass dash-leading arguments to the "
+    "default command); then every switch of the line stands after the separator. The line may be given as an argv list "
+    "(ArgvArgs) or as one string (StringArgs; only lines whose tokens the tokenizer returns unchanged)",
     "switches are inserted at item boundaries (never between an option and its separate value); `-v` is an optional-value option, so a following positional is consumed - the I/O effect is the same, the command's arguments are not",
     "real TTY capability detection is outside; `auto` is exercised with streams that report ANSI support",
     "the theorems have no hypothesis about real objects: the only inputs of the model are the tokens; that the list "
@@ -224,7 +236,46 @@ def generate(tier, rng):
                 "raises": rng.random() < 0.2, "debug_cfg": False}
         if surplus:
             case["surplus"] = surplus
-        yield case
+        yield _separator_first(k, case, base)
+
+
+SIMPLE = re.compile(r"^[A-Za-z0-9_.=-]+$")
+
+
+def _separator_first(case_no, case, base):
+    """two more ways to write a line, drawn from a child generator seeded by the case (the main stream stays the one
+    it was): (a) `--` as the very FIRST token - zero tokens before the separator, the ordinary way to hand dash-leading
+    arguments to the application's default command: `app -- -q`, `-- -vvv x`, `-- --ansi -n` - with the switches, and
+    sometimes words of the valid line, all behind it; (b) the line given as ONE STRING (StringArgs) instead of an argv
+    list (ArgvArgs), when every token survives the string tokenizer unchanged."""
+    import json
+    import random
+    sub = random.Random("c09-first:" + json.dumps([case_no, case["tokens"]]))
+    if sub.random() < 0.10:
+        tail = list(case["switches"])
+        if sub.random() < 0.5:
+            tail += [sub.choice(SWITCHES)]
+        if sub.random() < 0.4:
+            tail += base[:sub.randint(1, 2)]
+        sub.shuffle(tail)
+        case = dict(case, tokens=["--"] + tail, path=[], after=True, first=True)
+        case.pop("surplus", None)
+    if all(SIMPLE.match(t) for t in case["tokens"]) and sub.random() < (0.5 if case.get("first") else 0.25):
+        case["raw"] = "string"
+    return case
+
+
+def _raw(case, tokens=None):
+    """the RawArgs object of the line: argv list or one string"""
+    tokens = list(case["tokens"] if tokens is None else tokens)
+    if case.get("raw") == "string":
+        from clikit.args.string_args import StringArgs
+        a = StringArgs(" ".join(tokens))
+        if list(a.tokens) != tokens:
+            raise RuntimeError("harness: the string form of %r tokenizes as %r" % (tokens, a.tokens))
+        return a
+    from clikit.args.argv_args import ArgvArgs
+    return ArgvArgs(["prog"] + tokens)
 
 
 def exhaustive(tier):
@@ -354,7 +405,7 @@ def _resolve_only(case):
     from clikit.args.argv_args import ArgvArgs
     _, app = _build(case)
     try:
-        rc = app.resolve_command(ArgvArgs(["prog"] + list(case["tokens"])))
+        rc = app.resolve_command(_raw(case))
     except Exception as e:  # noqa
         return {"err": type(e).__name__}
     a = rc.args
@@ -372,7 +423,7 @@ def run_impl(case):
     help_log = {}
     config, app = _build(case, probe, help_log)
     tokens = case["tokens"]
-    raw = ArgvArgs(["prog"] + tokens)
+    raw = _raw(case)
     # 1. the decisions of create_io, with streams that claim ANSI support (so `auto` is visible)
     cfg = _cfg_of(config.create_io(app, raw, StringInputStream(""), AnsiCapable(), AnsiCapable()))
     if cfg["ansi"] == "off" and "--no-ansi" not in raw.option_tokens:
@@ -383,7 +434,7 @@ def run_impl(case):
         # the no-ANSI switch is about streams that COULD show escape sequences: run on such streams
         out, err = AnsiCapable(), AnsiCapable()
     try:
-        status = app.run(ArgvArgs(["prog"] + tokens), StringInputStream("typed\n"), out, err)
+        status = app.run(_raw(case), StringInputStream("typed\n"), out, err)
         escaped = None
     except BaseException as e:  # noqa
         status, escaped = None, type(e).__name__
@@ -492,7 +543,10 @@ def oracle(case, obs):
         if cfg != want_cfg or obs["help_switch"] != (has("-h") or has("--help")):
             return "switches after `--` had an effect: %s help=%s, the switches before it select %s" % (
                 cfg, obs["help_switch"], want_cfg)
-        if "version 1.2.3" in re.sub(r"\x1b\[[0-9;]*m", "", obs["out"]) and not (has("--version") or has("-V")):
+        # the version listener answered (PRE_HANDLE found the event handled) although no version switch stands before
+        # `--`.  (Not judged by the text: the application's help page - the default command of a line that is `--`
+        # first - shows name and version too.)
+        if obs["handled"] and not (has("--version") or has("-V")):
             return "`--version` after `--` printed the version"
         return None
     quiet = has("--quiet") or has("-q")
@@ -564,6 +618,10 @@ def nontrivial_key(case, obs):
 
 def bucket(case, obs):
     where = "after" if case["after"] else "before"
+    if case.get("first"):
+        where = "after `--` as first token"
+    if case.get("raw") == "string":
+        where += " (StringArgs)"
     if case.get("surplus"):
         where += "+lenient-surplus"
     return "%s|%s|status=%s|handler=%d" % (where, "+".join(sorted(set(case["switches"]))),
